@@ -47,8 +47,25 @@ WrapStep(ev) ==
           /\ \A i \in 1..nc : ev.pairs[na + i] = <<ev.X[ev.C[i]], ev.X[ev.D[i]]>> /\ ev.labels[na + i] = -1
        THEN {} ELSE {"C07.wrap_pairs"}, {"C07.wrap_pairs"})
 
+(* calls made by the repository's own tests and by every *_Supervised fit they run (pytest tracing plugin): the same   *)
+(* definitions, minus what a recorded call cannot show (the warning, re-running with the same seed)                     *)
+SuiteClause(c) == "C07.suite_" \o SubSeq(c, 5, Len(c))           \* "C07.pairs.x" -> "C07.suite_pairs.x"
+SuitePairsStep(ev) ==
+  IF ~InQuantifierPairs(ev.y) THEN R({}, {"C07.pairs.outside_quantifier"})
+  ELSE R({SuiteClause(c) : c \in PairsFailures(ev.y, ev.n, ev.same_length, ev.A, ev.B, ev.C, ev.D, TRUE)},
+         {SuiteClause(c) : c \in PairsClauses \ {"C07.pairs.warning_when_fewer"}})
+SuiteChunksStep(ev) ==
+  IF ~InQuantifierChunks(ev.y, ev.size) THEN R({}, {"C07.chunks.outside_quantifier"})
+  ELSE IF Feasible(ev.y, ev.n, ev.size)
+       THEN R(IF ev.exc = "" /\ ValidChunks(ev.y, ev.ch, ev.n, ev.size) THEN {} ELSE {"C07.suite_chunks.valid"},
+              {"C07.suite_chunks.valid"})
+       ELSE R(IF ev.exc = "ValueError" THEN {} ELSE {"C07.suite_chunks.infeasible_raises_ValueError"},
+              {"C07.suite_chunks.infeasible_raises_ValueError"})
+
 Step(ev) ==
   CASE ev.ev = "ConsPairs"  -> PairsStep(ev)
+    [] ev.ev = "CallConsPairs"  -> SuitePairsStep(ev)
+    [] ev.ev = "CallConsChunks" -> SuiteChunksStep(ev)
     [] ev.ev = "ConsChunks" -> ChunksStep(ev)
     [] ev.ev = "ConsKnn"    -> KnnStep(ev)
     [] ev.ev = "WrapPairs"  -> WrapStep(ev)
